@@ -7,7 +7,7 @@ import subprocess
 import time
 from multiprocessing import Pool
 
-from common import COPIA, NCPU, Result, SplitMix, build, finish, seed, workdir
+from common import asan_stage, COPIA, NCPU, Result, SplitMix, build, finish, seed, workdir
 from fsutil import (HOSTILE_COMPONENTS, MUTATING, STAGING, base_env, clear_traces, content_map, install_standin, is_staging, name_class, read_standin_log, read_traces, rmtree, run, set_mtime, shim_env, snapshot, wait_group_gone, write_file)
 
 DIRECTIONS = ("local", "push", "pull")
@@ -444,6 +444,8 @@ def c04(tier):
     n = 4000 if tier == "thorough" else 500
     fold(r, run_pool(_c04_worker, seed(), n, "c04"))
     r.assumptions = ["mtimes the file system cannot represent are dropped from the case after a read-back test", "directories are ignored (the property speaks of files)", "the remote side is a local bash via the stand-in; other remote shells are out of scope"]
+    if tier == "thorough":
+        asan_stage(r, "C04")
     finish(r, tier)
 
 
@@ -565,6 +567,8 @@ def c14(tier):
     n = 3000 if tier == "thorough" else 400
     fold(r, run_pool(_c14_worker, seed(), n, "c14"))
     r.assumptions = ["cases whose first run fails are skipped (C04 judges them)", "mtimes the file system cannot represent are dropped from the case after a read-back test"]
+    if tier == "thorough":
+        asan_stage(r, "C14")
     finish(r, tier)
 
 
@@ -714,6 +718,8 @@ def c15(tier):
     fold(r, run_pool(_c15_worker, seed(), 3000 if th else 400, "c15"))
     bisync.fold(r, bisync.run_pool(bisync._c15b_worker, seed(), 2500 if th else 400, "c15b"))
     r.assumptions = ["the reference excluded() is the wildcard definition from the statement with the documented normalisation (trailing '/' trimmed, empty pattern ignored)"]
+    if tier == "thorough":
+        asan_stage(r, "C15")
     finish(r, tier)
 
 
@@ -881,4 +887,6 @@ def c09(tier):
     fold(r, parts)
     r.exhaustive = True
     r.assumptions = ["exhaustive refers to k per (scenario, direction)", "kills land before libc calls of the copia process only; a crash of the remote side of an SSH session is not produced", "the remote side is bash + coreutils via the stand-in"]
+    if tier == "thorough":
+        asan_stage(r, "C09")
     finish(r, tier)
